@@ -46,9 +46,9 @@ type world struct {
 	sw       *accessory.Switch
 	bulb     *accessory.ColoredLightbulb
 
-	mu        sync.Mutex
-	callbacks []string // "remoteaddr aid.iid" for every conn-callback invocation
-	snapshots int      // camera snapshot requests
+	mu         sync.Mutex
+	callbacks  []string // "remoteaddr aid.iid" for every conn-callback invocation
+	snapshots  int      // camera snapshot requests
 	identifies int
 }
 
@@ -154,14 +154,14 @@ func diffState(a, b state) []string {
 // ---------------------------------------------------------------- attacker
 
 type attacker struct {
-	c        *refctl.Conn
-	keys     [][]byte // shared secrets the attacker derived itself on this connection
+	c               *refctl.Conn
+	keys            [][]byte // shared secrets the attacker derived itself on this connection
 	curPriv, curPub [32]byte
-	accPub   []byte
-	encKey   [32]byte
-	haveExchange bool
-	me       *refctl.Identity
-	srpSalt, srpB []byte
+	accPub          []byte
+	encKey          [32]byte
+	haveExchange    bool
+	me              *refctl.Identity
+	srpSalt, srpB   []byte
 }
 
 type step struct {
@@ -294,6 +294,12 @@ func main() {
 			r.Sample(map[string]interface{}{"history": h})
 		}
 	}
+	v0 := r.ViolationCount()
+	r.Guard("collisions", func() { collisions(w, r.Rand("collisions")) })
+	if r.ViolationCount() != v0 {
+		restore(dir, pristine)
+	}
+	r.Floor("collision_scenarios", int(r.Counter("collision_scenarios")), 8)
 	r.Floor("attacker_requests", int(r.Counter("attacker_requests")), 1000)
 	r.Floor("fences", int(r.Counter("fences_on_attacker_connections")), 100)
 	r.Floor("legit_operations_ok", int(r.Counter("legit_operations_ok")), 50)
@@ -335,7 +341,9 @@ func runHistory(w *world, hno int, h []step, rnd *rand.Rand) {
 		}
 	}()
 	var trace []map[string]interface{}
-	wit := func() map[string]interface{} { return map[string]interface{}{"history_no": hno, "history": h, "trace": trace} }
+	wit := func() map[string]interface{} {
+		return map[string]interface{}{"history_no": hno, "history": h, "trace": trace}
+	}
 	subscribedOnce := false
 
 	check := func(at *attacker, st step, before state, m *refctl.Message, err error, protected bool, encrypted bool) bool {
